@@ -463,7 +463,7 @@ PROPS["C18"] = {
     "technique": "property-based generation of files x exhaustive syscall-level fault and kill injection with strace, oracle on file bytes/mode/exit status (rapid)",
     "tests": [
         {"name": "TestProp", "quick": {"shards": 8, "checks": 4}, "thorough": {"shards": 16, "checks": 30}},
-        {"name": "TestMulti", "quick": {"shards": 8, "checks": 700}, "thorough": {"shards": 8, "checks": 5000}},
+        {"name": "TestMulti", "quick": {"shards": 8, "checks": 300}, "thorough": {"shards": 8, "checks": 5000}},
     ],
     "rule": "cases: (file content, mode), and invocations with 2-4 file arguments of mixed kinds (TestMulti: -c exits 0 exactly if all are formatted, "
             "-w leaves each file original or formatted); per single-file case all kill points and error injections are enumerated (counts in coverage.extra: "
